@@ -16,6 +16,7 @@ open Dashu.Props.C05
 #print axioms float_cmp
 #print axioms float_cmp_needs_precision_bound
 #print axioms float_results_fit
+#print axioms float_results_canonical
 #print axioms float_cmp_of_results
 #print axioms float_spare_digit_occurs
 #print axioms float_normalize
@@ -23,4 +24,5 @@ open Dashu.Props.C05
 #print axioms ratio_cmp
 #print axioms relaxed_eq
 #print axioms rbig_eq
+#print axioms rbig_hash_follows_value
 #print axioms ratio_cmp_equal_iff_eq
